@@ -90,11 +90,21 @@ def thorough(chk):
     chk.rule("R19-typecheck", "reference invocations whose expansion by the in-tree generator type-checks against the library (cargo check of a scratch crate, nothing executed)", n, floor=2)
 
 
+def r19_maxlen(chk):
+    """a typed `char[N]` member holds strings of up to N bytes: what the typed side stores must be accepted again when the written
+    file is loaded (length test of get_string_maxlen, rule R18-maxlen of C18)"""
+    from . import c06, diag, mir
+    prog = mir.prog()
+    diag.compare(chk, "R19-maxlen", "parser", c06.parser_table(prog), "length test of char[n] strings (get_string_maxlen) with its control predicate, compared with the reviewed table", floor=1,
+                 fn_filter=lambda fn: fn.endswith("::get_string_maxlen"))
+
+
 def run(chk):
     prog = mir.prog()
     panics.run_scope(chk, "R19-total", prog, scopes.ifdata_access_scope(prog), what="panic obligations in the GenericIfData::get_* accessors (structural mismatch must yield Err, not a panic)", floor=4)
     plumbing.r19_sibling(chk)
     plumbing.r05_plumb(chk, rule="R19-plumb", files=("a2lfile/src/a2ml.rs",))
     r19_text(chk)
+    r19_maxlen(chk)
     a2mltyped.run(chk)
     chk.assumptions += ["not decided: value round trip through store/load for arbitrary values; R19-text / R19-typed decide the generator on the reference invocations only (the 'programs' quantifier of the property is that fixed set)"]
